@@ -22,7 +22,8 @@ import itertools
 from xml.sax.saxutils import escape, quoteattr
 
 KEYTYPES = ["basic-key", "identifier", "ipaddr-or-hostname"]
-DT_DOTTED = {"wrap": "zcverif_dt.fam.wrap", "wrap2": "zcverif_dt.fam.wrap2"}
+DT_DOTTED = {"wrap": "zcverif_dt.fam.wrap", "wrap2": "zcverif_dt.fam.wrap2",
+             "epoch": "zcverif_dt.epoch"}
 
 # ---------------------------------------------------------------------------
 # reference key normalisation (ASCII vocabulary only)
@@ -131,7 +132,11 @@ INVALID = {
     "string-list": [],
     "inet-address": ["host:99999", "a b", ""],
 }
-DATATYPES = sorted(VALID)
+# 'epoch' (result depends on the outside world) is used by C13's own
+# section type only; it has no fixed expected values
+VALID["epoch"] = [("e1", None), ("e2", None)]
+INVALID["epoch"] = []
+DATATYPES = sorted(d for d in VALID if d != "epoch")
 # values that only a schema default can hold (a configuration line cannot
 # contain a newline); <default> content is stripped, inner text kept
 DEFAULT_EXTRA = {
